@@ -433,6 +433,9 @@ const basePrelude = `(define-fun nil_slice () Slice (mk_slice 0 0 0 0))
 (declare-fun blen (Bytes) Int)
 (declare-fun bcat (Bytes Bytes) Bytes)
 (declare-fun bview ((Array Int Int) Int Int) Bytes)
+(assert (forall ((x Bytes)) (! (>= (blen x) 0) :pattern ((blen x)))))
+(assert (forall ((a (Array Int Int)) (o Int) (n Int)) (! (=> (>= n 0) (= (blen (bview a o n)) n)) :pattern ((bview a o n)))))
+(assert (forall ((x Bytes) (y Bytes)) (! (and (= (blen (bcat x y)) (+ (blen x) (blen y))) (=> (= (blen x) 0) (= (bcat x y) y)) (=> (= (blen y) 0) (= (bcat x y) x))) :pattern ((bcat x y)))))
 (declare-fun bytes_of_str (Str) Bytes)
 (declare-fun str_of_bytes (Bytes) Str)
 (declare-fun bitop (Int Int Int) Int)
